@@ -18,6 +18,11 @@ class Unsupported(Exception):
     pass
 
 
+class BroadcastError(Unsupported):
+    """Two arrays of known shape that numpy itself cannot broadcast: the statement raises
+    ValueError at run time (a fact about the analysed code, not a limit of the evaluator)."""
+
+
 class Opaque:
     def __init__(self, tag, *parts):
         self.tag, self.parts = tag, parts
@@ -194,6 +199,11 @@ class SymEval:
         for a in arrs:
             if a.shape != shape and a.shape != shape[len(shape) - len(a.shape):] \
                     and a.shape != (1,) * len(a.shape):
+                if all(isinstance(d, int) for d in a.shape + shape) and any(
+                        x != y and x != 1 and y != 1
+                        for x, y in zip(reversed(a.shape), reversed(shape))):
+                    raise BroadcastError('operands of shapes %s and %s cannot be broadcast '
+                                         'together' % (a.shape, shape))
                 raise Unsupported('shape mismatch %s vs %s' % (a.shape, shape))
         out = SArray(shape, {}, None, any(a.sample for a in arrs))
         for idx in out.indices():
@@ -425,6 +435,7 @@ class SymEval:
             self.exec_stmt(st, env)
 
     def exec_stmt(self, st, env):
+        self.last_stmt = (self.cur, st)      # innermost statement being executed (diagnostics)
         if isinstance(st, ast.Expr):
             if isinstance(st.value, ast.Constant):
                 return
